@@ -229,22 +229,37 @@ theorem GOk.baseClose_nonpool {s : St} (h : GOk s) (hk : s.cfg.kind ≠ .pool) :
       exact a12 h1 i j (by simpa [closeEffect_inst] using hi) (by simpa [closeEffect_inst] using hj)
 
 
+/-- in the states of the C17 alphabet `close()` never has to wait: no hook blocks, no worker is blocked -/
+theorem GOk.closeWaits_false {s : St} (h : GOk s) : closeWaits s = false := by
+  have hb := h.b
+  have hany : s.ids.any (fun k => hookHolds (s.cli k)) = false := by
+    rw [List.any_eq_false]
+    intro k _
+    have hc := h.cli k
+    have hsl : (s.cli k).slowHook = false := hc.1.2
+    have hph : (s.cli k).phase ≠ .closing := by
+      obtain ⟨_, _, hs⟩ := hc
+      unfold Shape at hs
+      intro hp; simp [hp] at hs
+    simp [hookHolds, hsl, hph]
+  simp [closeWaits, hany, hb]
+
 theorem GOk.poolClose {s : St} (h : GOk s) (hk : s.cfg.kind = .pool) :
     ∃ s', poolClose s = some s' ∧ GOk s' := by
   have hb : s.blocked = [] := h.b
   have hkn : s.cfg.kind ≠ .oneshot := by simp [hk]
-  refine ⟨_, by simp [Srv.poolClose, hb]; rfl, ?_⟩
+  refine ⟨_, by simp only [Srv.poolClose, h.closeWaits_false]; rfl, ?_⟩
   unfold baseClose
   by_cases hc : s.closedFlag = true
   · -- already closed: nothing left to drop
     simp only [hc, if_true]
     have hcli : (s.mapCli dropEffect).cli = s.cli := by
       funext j; simpa using dropEffect_closed s.cfg (s.cli j) hk (by simpa [hc] using h.cli j)
-    exact h.congr rfl (by simp [hc]) rfl rfl rfl rfl rfl rfl (by simp [(h.closed hc).2.2.2.2]) hcli (fun _ => rfl)
+    exact h.congr rfl (by simp [hc]) rfl rfl rfl rfl rfl hb.symm (by simp [(h.closed hc).2.2.2.2]) hcli (fun _ => rfl)
   · have hc' : s.closedFlag = false := by simpa using hc
     simp only [hc', Bool.false_eq_true, if_false]
     obtain ⟨a1, a2, a3, a4, a5, a6, a7, a8, a9, a10, a11, a12⟩ := h
-    refine ⟨?_, a2, a3, a4, ?_, ?_, ?_, ?_, ?_, ?_, ?_, ?_⟩
+    refine ⟨?_, a2, rfl, a4, ?_, ?_, ?_, ?_, ?_, ?_, ?_, ?_⟩
     · intro j; simpa using poolCloseEffect_ok s.cfg (s.cli j) hk (by simpa [hc'] using a1 j)
     · intro _; simp
     · simp
